@@ -25,13 +25,22 @@ pub struct World {
     pub preimages: BTreeSet<[u8; 32]>,
     pub lock_time: u32,
     pub sequence: u32,
+    /// nVersion of the spending transaction (BIP68/112: relative locks need >= 2)
+    pub tx_version: i32,
 }
 
 impl World {
     pub fn describe(&self) -> String {
         let ks: Vec<String> = self.keys.iter().map(|k| keys::hex(&k[..4])).collect();
         let ps: Vec<String> = self.preimages.iter().map(|k| keys::hex(&k[..4])).collect();
-        format!("keys=[{}] preimages=[{}] nLockTime={} nSequence={:#x}", ks.join(","), ps.join(","), self.lock_time, self.sequence)
+        format!(
+            "keys=[{}] preimages=[{}] nLockTime={} nSequence={:#x}{}",
+            ks.join(","),
+            ps.join(","),
+            self.lock_time,
+            self.sequence,
+            if self.tx_version == 2 { String::new() } else { format!(" nVersion={}", self.tx_version) }
+        )
     }
     pub fn has_key_bytes(&self, b: &[u8]) -> bool { keys::xonly_of(b).map(|x| self.keys.contains(&x)).unwrap_or(false) }
 }
@@ -44,6 +53,15 @@ pub struct TxCtx {
 }
 
 pub fn make_tx(spk: &[u8], lock_time: u32, sequence: u32, n_inputs: usize, idx: usize) -> TxCtx {
+    make_tx_v(spk, lock_time, sequence, n_inputs, idx, 2)
+}
+
+/// Spending transaction for a world (its nLockTime, nSequence and nVersion).
+pub fn make_tx_w(spk: &[u8], w: &World, n_inputs: usize, idx: usize) -> TxCtx {
+    make_tx_v(spk, w.lock_time, w.sequence, n_inputs, idx, w.tx_version)
+}
+
+pub fn make_tx_v(spk: &[u8], lock_time: u32, sequence: u32, n_inputs: usize, idx: usize, version: i32) -> TxCtx {
     let mut inputs = Vec::new();
     let mut prevouts = Vec::new();
     for i in 0..n_inputs {
@@ -62,7 +80,7 @@ pub fn make_tx(spk: &[u8], lock_time: u32, sequence: u32, n_inputs: usize, idx: 
         prevouts.push(TxOut { value: Amount::from_sat(100_000 + i as u64), script_pubkey: spk_i });
     }
     let tx = Transaction {
-        version: transaction::Version(2),
+        version: transaction::Version(version),
         lock_time: absolute::LockTime::from_consensus(lock_time),
         input: inputs,
         output: vec![TxOut {
@@ -145,7 +163,7 @@ fn base_sat(world: &World) -> WorldSat {
     let mut s = WorldSat {
         lock_time: world.lock_time,
         sequence: world.sequence,
-        tx_version: 2,
+        tx_version: world.tx_version,
         locks: true,
         ..Default::default()
     };
@@ -318,7 +336,7 @@ pub fn sign_symbolic(
         schnorr: HashSet::new(),
         lock_time: world.lock_time,
         sequence: world.sequence,
-        tx_version: 2,
+        tx_version: world.tx_version,
     };
     for kb in ecdsa_keys {
         add_pkh(&mut s, kb);
